@@ -32,6 +32,8 @@ def _expand(e):
 
 def _branch_roles(body):
     """-> list of ExpConstr role triples in a lowering branch"""
+    from .common import expand_block_locals
+    body = expand_block_locals(body, keep=('exprs_list',))
     roles = None
     out = []
     for st in body:
